@@ -5,6 +5,7 @@ import (
 	"fmt"
 	"io"
 	"math"
+	"os"
 	"math/rand"
 	"strconv"
 	"strings"
@@ -158,9 +159,34 @@ func guard(f func() string) (out string) {
 // ---- line output ----
 
 type Emitter struct {
-	sb    *strings.Builder
-	count int
-	hist  map[string]int
+	sb          *strings.Builder
+	count       int
+	hist        map[string]int
+	pendingPath string
+	pendingFile *os.File
+	pendingLen  int
+}
+
+// pending records the input about to be executed, so that if the implementation kills the
+// process (fatal runtime error such as out of memory, which recover() cannot catch) the
+// orchestrator still has the concrete failing input.
+func (e *Emitter) pending(op, input string) {
+	if e.pendingPath == "" {
+		return
+	}
+	if e.pendingFile == nil {
+		f, err := os.Create(e.pendingPath)
+		if err != nil {
+			return
+		}
+		e.pendingFile = f
+	}
+	data := []byte(op + "\t" + input + "\n")
+	e.pendingFile.WriteAt(data, 0)
+	if len(data) < e.pendingLen {
+		e.pendingFile.Truncate(int64(len(data)))
+	}
+	e.pendingLen = len(data)
 }
 
 func (e *Emitter) emit(op, input, goOut string) {
